@@ -341,6 +341,15 @@ class SerialDevice:
         self._line_free_at = t + 0.0003 * len(chunks)
         return self._line_free_at
 
+    def send_whole(self, delay, data):
+        """Deliver data in one piece (one read on the host side)."""
+        if self.silent:
+            return
+        t = max(self.world.now + delay, getattr(self, "_line_free_at", 0.0))
+        self.loop.call_at(t, self._deliver, bytes(data))
+        self._line_free_at = t + 0.0003
+        return self._line_free_at
+
     def _deliver(self, ch):
         if not self.transport.closed:
             self.proto.data_received(ch)
@@ -395,14 +404,18 @@ class LubaGateway(SerialDevice):
 
     def _sent(self, last, tx_id, fb, nbits, value):
         ans = self.bus.transmit(self.world.now, nbits, value, "own", want_answer=last)
-        if self.confirm:
-            self.send(self.pick("luba.confirm_delay", [0.001, 0.004]), W.luba_event_sent(tx_id, fb, tick=int(self.world.now * 1000) & 0xFFFF))
+        conf = W.luba_event_sent(tx_id, fb, tick=int(self.world.now * 1000) & 0xFFFF)
+        answer = None
         if last and ans is not None and self.answering:
-            d = self.pick("luba.answer_delay", [0.007, 0.012, 0.02])
-            if ans[0] == "ok":
-                self.send(d, W.luba_event_received([ans[1]]))
-            else:
-                self.send(d, W.luba_event_received([ans[1]], info=63))
+            answer = W.luba_event_received([ans[1]]) if ans[0] == "ok" else W.luba_event_received([ans[1]], info=63)
+        if self.confirm and answer is not None and self.pick("luba.coalesce", [0, 0, 1]):
+            # a USB-serial adapter may hand both events to the host in one read
+            self.send_whole(self.pick("luba.answer_delay", [0.012, 0.02]), conf + answer)
+            return
+        if self.confirm:
+            self.send(self.pick("luba.confirm_delay", [0.001, 0.004]), conf)
+        if answer is not None:
+            self.send(self.pick("luba.answer_delay", [0.007, 0.012, 0.02]), answer)
 
     def foreign(self, delay, nbits, value, answer=None):
         def fire():
